@@ -46,13 +46,15 @@ ck.declare('S1_synced_records_survive', 'manual sync mode: append r1, append r2,
            'replay is Ok, starts with r1 r2 (acknowledged by the sync) and contains nothing but a prefix of r1 r2 r3')
 ck.declare('S2_batched_sync', 'batched sync mode (batch of 2 and 3): appends filling a batch, explicit sync of a partial batch, one unsynced record; crash at every length >= the synced length',
            'replay is Ok, starts with every record covered by a full batch or an explicit sync, and contains nothing but a prefix of the appended records')
+ck.declare('S3_rotation_keeps_acknowledged', 'manual and batched mode with a size limit that the second append exceeds (auto-rotate on): r1, r2, sync(); crash at every length >= the synced length of the current file',
+           'replay after reopening returns r1 and r2: rotation does not remove acknowledged records from what recovery sees')
 ck.declare('T1_truncate_then_continue', 'manual sync mode: append r1, r2 (still buffered), truncate() [the checkpoint step], append r3, sync(), append r4 (unsynced); crash at every length >= the synced length; '
            'and the same with one buffered record',
            'replay is Ok, starts with the record synced after the truncation and contains nothing but a prefix of the records written after it: nothing written before the truncation comes back, nothing acknowledged after it is lost')
 SM = P.variant_index('SyncMode', 'Manual')
 
 
-def manual_scenario(obl, steps, acked, allnames, L, batched=None):
+def manual_scenario(obl, steps, acked, allnames, L, batched=None, max_size=None):
     st = ex.new_state()
     st.env['codec_len'] = L
     for i in (1, 2, 3, 4):
@@ -62,6 +64,9 @@ def manual_scenario(obl, steps, acked, allnames, L, batched=None):
         cfg.fields[P.field('WalConfig', 'sync_mode')] = Enum('SyncMode', SM, {}, variant='Manual')
     else:
         cfg.fields[P.field('WalConfig', 'sync_mode')] = Enum('SyncMode', P.variant_index('SyncMode', 'Batched'), {('Batched', 0): Int(z3.BitVecVal(batched, 64), False)}, variant='Batched')
+    if max_size is not None:
+        cfg.fields[P.field('WalConfig', 'max_size_bytes')] = Int(z3.BitVecVal(max_size, 64), False)
+        cfg.fields[P.field('WalConfig', 'auto_rotate')] = z3.BoolVal(True)
     res = sc.run(st, 'TensorWal::open', [ref(Str(text='wal')), cfg])
     good = [r for r in res if r.status == 'return' and r.retval.variant == 'Ok']
     if len(good) != 1:
@@ -92,7 +97,7 @@ def manual_scenario(obl, steps, acked, allnames, L, batched=None):
         for cut in range(fl.synced, len(fl.data) + 1):
             crashed = sc.crash(base, cut)
             for (s1, wp, e1) in sc.open(crashed, f'{obl} reopen cut={cut}'):
-                wit0 = {'wal': 'tensor-manual', 'batched': batched, 'steps': list(steps), 'cut': cut, 'synced': fl.synced, 'len': len(fl.data), 'flushed': vi == 1,
+                wit0 = {'wal': 'tensor-manual', 'batched': batched, 'max_size': max_size, 'steps': list(steps), 'cut': cut, 'synced': fl.synced, 'len': len(fl.data), 'flushed': vi == 1,
                         'acked': acked, 'allnames': allnames}
                 if wp is None:
                     ck.require(ex, obl, s1.pc, None, z3.BoolVal(False), lambda m, w=dict(wit0, outcome=e1): w, lambda m, w: 'manual-sync')
@@ -100,7 +105,7 @@ def manual_scenario(obl, steps, acked, allnames, L, batched=None):
                 for (r, got, e2) in sc.replay(s1, f'{obl} replay'):
                     names = [getattr(g_, 'lazy', None) for g_ in (got or [])]
                     good_ = e2 is None and names[:len(acked)] == acked and names == allnames[:len(names)]
-                    ck.require(ex, obl, r.pc, None, z3.BoolVal(good_), lambda m, w=dict(wit0, outcome=e2 or names): w, lambda m, w: 'manual-sync')
+                    ck.require(ex, obl, r.pc, None, z3.BoolVal(good_), lambda m, w=dict(wit0, outcome=e2 or names): w, lambda m, w: 'rotated-records-not-replayed' if w.get('max_size') is not None and w.get('outcome') == ['r2'] else 'manual-sync')
 
 
 for L in LENS[:1]:
@@ -109,6 +114,10 @@ for L in LENS[:1]:
     manual_scenario('S2_batched_sync', ('r1', 'r2', 'r3'), ['r1', 'r2'], ['r1', 'r2', 'r3'], L, batched=2)
     manual_scenario('S2_batched_sync', ('r1', 'sync', 'r2', 'r3', 'r4'), ['r1', 'r2', 'r3'], ['r1', 'r2', 'r3', 'r4'], L, batched=2)
     manual_scenario('S2_batched_sync', ('r1', 'r2', 'r3', 'sync', 'r4'), ['r1', 'r2', 'r3'], ['r1', 'r2', 'r3', 'r4'], L, batched=3)
+    # automatic rotation (size limit 15 bytes, records of 10: the second append rolls the log over): every record covered by
+    # the explicit sync - the one that moved to the rotated file and the one in the fresh file - is there after recovery
+    manual_scenario('S3_rotation_keeps_acknowledged', ('r1', 'r2', 'sync'), ['r1', 'r2'], ['r1', 'r2'], L, max_size=15)
+    manual_scenario('S3_rotation_keeps_acknowledged', ('r1', 'r2', 'sync'), ['r1', 'r2'], ['r1', 'r2'], L, batched=3, max_size=15)
     manual_scenario('T1_truncate_then_continue', ('r1', 'truncate', 'r2', 'sync', 'r3'), ['r2'], ['r2', 'r3'], L)
     manual_scenario('T1_truncate_then_continue', ('r1', 'r2', 'truncate', 'r3', 'sync', 'r4'), ['r3'], ['r3', 'r4'], L)
     # the handle installed by rotate() is not in append mode: truncation must still leave the next record at offset 0
@@ -291,7 +300,7 @@ for v in ck.violations:
             # the record that makes the write visible on recovery is the last one the call writes
             v['replayed'] = (not mine) or mine[-1] != want
     elif w.get('wal') == 'tensor-manual':
-        rep = Replay.call({'op': 'wal_manual', 'steps': w['steps'], 'cut': w['cut'], 'len': w['len'], 'flushed': w['flushed'], 'batched': w.get('batched')})
+        rep = Replay.call({'op': 'wal_manual', 'steps': w['steps'], 'cut': w['cut'], 'len': w['len'], 'flushed': w['flushed'], 'batched': w.get('batched'), 'rotate_at_second': w.get('max_size') is not None})
         v['native'] = rep
         rp = rep.get('replay', {})
         names = rp.get('names') or []
